@@ -73,7 +73,7 @@ var notCovered = map[string][]string{
 	"C04": {"that an error-free iteration of Ln's power series makes progress (error exit proved only); 'slow is not hang'; what the parser makes of the bytes of its text (strings are codes with a length and bytes: strlen/strbyte, exact for constants, related through indexing, slicing, concatenation, conversions and append; strings.HasPrefix is uninterpreted, strings.IndexByte only ranged); what a fmt.State, a database/sql source value or any other interface value does (interface method calls are unconstrained, type assertions with ok yield any value); the text produced; functions without contract are listed in DESIGN.md section 14"},
 	"C07": {"Sqrt/Cbrt/Exp/Ln/Pow inherit 'fits' from the contract of their final round call"},
 	"C13": {"decided: the text round trip for String/Text(G,g,E,e)/MarshalText through setString, Context.SetString, NewFromString, Decimal.SetString, UnmarshalText (formatter writes a text satisfying FinText/SpecText; the parser given such a text for a value inside the limits returns exactly that decimal) and Compose/Decompose over beval. Assumed: the numeral vocabulary (uf_utext/uf_stext texts are numerals of that value: strconv.ParseInt and big.Int.SetString read what strconv.AppendInt and big.Int.Append write), strings.ToLower on ASCII texts, strings.IndexByte/HasPrefix; that parse(format(d)) == d follows from the two contracts is read off their matching hypothesis and conclusion, not machine-checked as one lemma. Value and Scan(string, []byte) are covered through dynamic-type tags on interface values (assumed model of the type switch). Not decided: Text('f') for positive exponents (numeric value only), NaN payload digits (String does not print them), SetFloat64/Float64 and Scan(float64) (floats). Open finding: Text('E') of coefficients longer than 100001 digits"},
-	"C14": {"decided: the exact bytes of Append/Text/String/MarshalText for every decimal and verb (plain or scientific layout, the to-scientific-string choice with the documented zero exception, sign, special values, unknown verbs) over the decimal text of the coefficient and of the exponent (uf_dchar: math/big's and strconv's digits are assumed to be the decimal text). Not decided: the parser's acceptance set and 'no partial value' (only: a successful parse is well formed, the mantissa carries no second sign, the digit count handed to setExponent is right); what Format writes for an unknown verb (fmt.Fprintf); the fmt.State is modelled by a ghost log (Write appends; Flag, Width, Precision are fixed attributes of the state): that the real fmt.State behaves so is assumed; rejection of every text outside the grammar (proved: acceptance of every grammatical finite numeric string and of the special-value spellings in any case with optional sign and payload < 2^64; rejection of ASCII texts containing a character that is no digit, sign, point or letter, of ASCII texts that start like a number and contain a letter other than e/E, of nan/snan followed by anything but digits, of ASCII words that are no special-value spelling, of two points, two exponent letters, a sign that is neither first nor right after the e, the empty text, an empty exponent, a text without a digit that is no special value - lifted to SetString/NewFromString (no value and no condition returned), UnmarshalText and Scan; a digitless mantissa, a trailing sign; not proved: non-ASCII texts; completeness of the thirteen classes (that every ASCII text outside the grammar falls in one of them) is argued in DESIGN.md, not machine-checked)"},
+	"C14": {"decided: the exact bytes of Append/Text/String/MarshalText for every decimal and verb (plain or scientific layout, the to-scientific-string choice with the documented zero exception, sign, special values, unknown verbs) over the decimal text of the coefficient and of the exponent (uf_dchar: math/big's and strconv's digits are assumed to be the decimal text). Not decided: the parser's acceptance set and 'no partial value' (only: a successful parse is well formed, the mantissa carries no second sign, the digit count handed to setExponent is right); what Format writes for an unknown verb (fmt.Fprintf); the fmt.State is modelled by a ghost log (Write appends; Flag, Width, Precision are fixed attributes of the state): that the real fmt.State behaves so is assumed; rejection of every text outside the grammar (proved: acceptance of every grammatical finite numeric string and of the special-value spellings in any case with optional sign and payload < 2^64; rejection of ASCII texts containing a character that is no digit, sign, point or letter, of ASCII texts that start like a number and contain a letter other than e/E, of nan/snan followed by anything but digits, of ASCII words that are no special-value spelling, of two points, two exponent letters, a sign that is neither first nor right after the e, the empty text, an empty exponent, a text without a digit that is no special value - lifted to SetString/NewFromString (no value and no condition returned), UnmarshalText and Scan; a digitless mantissa, a trailing sign; not proved: non-ASCII texts; completeness of the fourteen classes (that every ASCII text outside the grammar falls in one of them) is argued in DESIGN.md and cross-checked by the bounded stand-in rejection-classes-complete, not proved)"},
 	"C16": {"text and byte results (String/Text/Append/Format/Marshal*/GobEncode/Bytes/FillBytes/Bits/Size) have no-panic and representation contracts only - the bytes produced are math/big's and are compared with math/big only by the bounded differential check; SetBits, SetBytes, Rand, the decoders, ModSqrt, ProbablyPrime are specified up to sign/range/representation, not value; And/Or/Xor/Not/Lsh/Sqrt/MulRange/Binomial/SetBit/GCD/ModInverse are proved against uninterpreted math/big operation functions (wrapper plumbing, aliasing, representation), not against a bit-level definition; the unsafe bridge (inner/updateInner) and math/big are assumed contracts, the bridge exercised by the bounded differential check (incl. negative zeros handed back by math/big)"},
 	"C17": {"Float64 is covered as plumbing only (the result is what strconv.ParseFloat returns for the scientific string of d, on every path: that it is the nearest float64 is strconv's); SetFloat64 goes through strconv.AppendFloat and the parser: that the stored decimal is the shortest one that round-trips is not decided"},
 	"C18": {"schedules are not explored: data-race freedom follows from the proved sequential frame conditions by the stated meta-theorem; races inside math/big or the runtime are out of reach"},
@@ -292,6 +292,10 @@ func cmdCheck(args []string) {
 	if prop == "C16" && *tier != "thorough" {
 		// the stand-in for the trusted unsafe bridge (inner/updateInner) is cheap enough for every change
 		btests = append(btests, "TestVerifBigIntBridge")
+	}
+	if prop == "C14" {
+		// completeness of the rejection classes (an argument on paper, DESIGN 7/C14) cross-checked exhaustively on short texts
+		btests = append(btests, "TestVerifRejComplete")
 	}
 	if *tier == "thorough" {
 		switch prop {
